@@ -359,7 +359,11 @@ func c08stress(c *Ctx) {
 					case 1:
 						l.Warn(msg, args...)
 					case 2:
-						l.InfoContext(ctx, msg, args...)
+						if !withCtx && useCtx && k%3 == 0 {
+							l.InfoContext(nil, msg, args...) //nolint:staticcheck // a nil context is a context without values (the loggers have context keys)
+						} else {
+							l.InfoContext(ctx, msg, args...)
+						}
 						kept = lq != 1
 					default:
 						lv := slog.ErrorLevel
